@@ -13,10 +13,10 @@ Open Scope N_scope.
    interpreted over the generated signatures and __init__ summaries, returns
    normally and every selected option is visible where it acts. *)
 Theorem C18_documented_options_accepted :
-  forall (orc : avop -> pstr -> pstr -> option bool)
+  forall (orc : avop -> pstr -> pstr -> option bool) (cont : pstr -> bool)
          (c : gwclass) (by_keyword : bool) (ch : list choice),
     List.length ch = List.length (documented c) ->
-    exists h, construct_case orc c by_keyword ch = Ok h
+    exists h, construct_case orc cont c by_keyword ch = Ok h
       /\ (forall o v, In (o, v) (selected c ch) -> honoured (look h) c (selected c ch) o v)
       /\ required_visible (look h) c.
 Proof. exact documented_options_accepted. Qed.
@@ -57,66 +57,73 @@ Proof. exact floor_module_spec. Qed.
    iff it is numerically >= 1.4; the ">= 2.0" test of is_sensor agrees with a
    2.x table being selected; a node presenting v gets the same table *)
 Theorem C18_version_floor :
-  forall (orc : avop -> pstr -> pstr -> option bool) (v : pstr),
+  forall (orc : avop -> pstr -> pstr -> option bool) (cont : pstr -> bool) (v : pstr),
     dotted_numeric v = true ->
     get_const orc v = Ok (floor_module (sections v))
-    /\ safe_is_version orc (VStr v) = Ok (if le_numb [1; 4] (sections v) then v else s2p "1.4")
-    /\ gateway_const orc (VStr v) = Ok (floor_module (sections v))
-    /\ (do s <- safe_is_version orc (VStr v); wants_presentation orc s) = Ok (le_numb [2; 0] (sections v))
+    /\ safe_is_version orc cont (VStr v) = Ok (if le_numb [1; 4] (sections v) then v else s2p "1.4")
+    /\ gateway_const orc cont (VStr v) = Ok (floor_module (sections v))
+    /\ (do s <- safe_is_version orc cont (VStr v); wants_presentation orc s) = Ok (le_numb [2; 0] (sections v))
     /\ le_numb [2; 0] (sections v) = is_2x (floor_module (sections v))
-    /\ node_const orc (VStr v) = Ok (floor_module (sections v)).
+    /\ node_const orc cont (VStr v) = Ok (floor_module (sections v)).
 Proof.
-  exact (fun orc v H =>
-    conj (get_const_floor orc v H) (conj (safe_is_version_num orc v H)
-    (conj (gateway_const_floor orc v H) (conj (wants_presentation_num orc v H)
+  exact (fun orc cont v H =>
+    conj (get_const_floor orc v H) (conj (safe_is_version_num orc cont v H)
+    (conj (gateway_const_floor orc cont v H) (conj (wants_presentation_num orc cont v H)
     (conj (ge20_iff_2x_table (sections v))
-          (eq_trans (node_same_rule orc (VStr v)) (gateway_const_floor orc v H))))))).
+          (eq_trans (node_same_rule orc cont (VStr v)) (gateway_const_floor orc cont v H))))))).
 Qed.
 
 (* whatever a node presents (any value, any verdict of the oracle) is selected
    by the same function as the gateway's own protocol_version *)
 Theorem C18_node_same_rule :
-  forall (orc : avop -> pstr -> pstr -> option bool) (v : val),
-    node_const orc v = gateway_const orc v.
+  forall (orc : avop -> pstr -> pstr -> option bool) (cont : pstr -> bool) (v : val),
+    node_const orc cont v = gateway_const orc cont v.
 Proof. exact node_same_rule. Qed.
 
-(* a value whose str() is not dotted numeric: the verdict of is_version's test is
-   the oracle's (the library's) on the comparison is_version performs - for the
-   current code  AwesomeVersion("1.4") > AwesomeVersion(str(v)).  If the library
-   cannot compare (exception) or finds it older: version "1.4" and the 1.4
-   constants, for the gateway and for a node.  If it accepts: kept as written. *)
+(* a value whose str() is not dotted numeric: the verdict of is_version's
+   comparison is the oracle's (the library's) - for the current code
+   AwesomeVersion("1.4") > AwesomeVersion(str(v)).  If it is one of
+   awesomeversion's container words ("latest", "dev", "stable", "beta": cont),
+   or the library cannot compare it (exception), or finds it older: version
+   "1.4" and the 1.4 constants, for the gateway and for a node.  Anything else
+   the library accepts is kept as written. *)
 Theorem C18_nonnumeric_fallback :
-  forall (orc : avop -> pstr -> pstr -> option bool) (v : val),
+  forall (orc : avop -> pstr -> pstr -> option bool) (cont : pstr -> bool) (v : val),
     dotted_numeric (py_str v) = false ->
     eval_vtest orc is_version_test (py_str v) [] =
       option_map (xorb (vt_neg is_version_test))
         (orc (vt_op is_version_test) (side_val (vt_l is_version_test) (py_str v) [])
              (side_val (vt_r is_version_test) (py_str v) []))
-    /\ ((eval_vtest orc is_version_test (py_str v) [] = None
+    /\ ((cont (py_str v) = true
+         \/ eval_vtest orc is_version_test (py_str v) [] = None
          \/ eval_vtest orc is_version_test (py_str v) [] = Some true) ->
-        safe_is_version orc v = Ok (s2p "1.4")
-        /\ gateway_const orc v = Ok fallback_module /\ node_const orc v = Ok fallback_module)
-    /\ (eval_vtest orc is_version_test (py_str v) [] = Some false ->
-        safe_is_version orc v = Ok (py_str v)).
+        safe_is_version orc cont v = Ok (s2p "1.4")
+        /\ gateway_const orc cont v = Ok fallback_module /\ node_const orc cont v = Ok fallback_module)
+    /\ (cont (py_str v) = false -> eval_vtest orc is_version_test (py_str v) [] = Some false ->
+        safe_is_version orc cont v = Ok (py_str v)).
 Proof.
-  exact (fun orc v H => conj (is_version_test_oracle orc (py_str v) H)
-                             (conj (nonnumeric_fallback orc v) (nonnumeric_accepted orc v))).
+  exact (fun orc cont v H =>
+    conj (is_version_test_oracle orc (py_str v) H)
+         (conj (nonnumeric_fallback orc cont v H)
+               (fun Hc => nonnumeric_accepted orc cont v
+                            (eq_trans (f_equal (andb (negb (dotted_numeric (py_str v)))) Hc)
+                                      (andb_false_r _))))).
 Qed.
 
-(* FINDING (known_findings: version/container-word).  The fallback does not hold
-   for every non-numeric string: for the oracle that answers like awesomeversion
-   on its SpecialContainer word "dev" (greater than every numeric version) the
-   digit-free string "dev" is kept and selects the 2.2 constants, for the
-   gateway, for a node, and for the presentation request. *)
-Theorem C18_nonnumeric_fallback_refuted :
-  exists (orc : avop -> pstr -> pstr -> option bool) (v : val),
+(* HISTORY (finding version/container-word, repaired in the repo by b5ee08d).
+   Without the container test (is_version_with false = the code before the fix)
+   and with the oracle that answers like awesomeversion on its container word
+   "dev", the digit-free string "dev" was kept and get_const gave the 2.2
+   constants; with the test (the current code) the same inputs give "1.4". *)
+Theorem C18_nonnumeric_fallback_unfixed_refuted :
+  exists (orc : avop -> pstr -> pstr -> option bool) (cont : pstr -> bool) (v : val),
     dotted_numeric (py_str v) = false
     /\ forallb (fun c => negb (is_digit c)) (py_str v) = true
-    /\ safe_is_version orc v = Ok (py_str v)
-    /\ gateway_const orc v = Ok (s2p "mysensors.const_22")
-    /\ node_const orc v = Ok (s2p "mysensors.const_22")
-    /\ (do s <- safe_is_version orc v; wants_presentation orc s) = Ok true.
-Proof. exact nonnumeric_fallback_refuted. Qed.
+    /\ cont (py_str v) = true
+    /\ safe_is_version_with orc cont false v = Ok (py_str v)
+    /\ get_const orc (py_str v) = Ok (s2p "mysensors.const_22")
+    /\ safe_is_version orc cont v = Ok (s2p "1.4").
+Proof. exact nonnumeric_fallback_unfixed_refuted. Qed.
 
 (* the generated tables are the ones the specification was written for, and the
    constructor examples of README.md / mqtt.py / main.py / async_main.py use
@@ -142,10 +149,10 @@ Proof. vm_compute. repeat split. Qed.
 Example C18_ex_strings :
   dotted_numeric (s2p "2.0.0") = true /\ sections (s2p "02.00") = [2; 0]
   /\ get_const (fun _ _ _ => None) (s2p "2.0.0") = Ok (s2p "mysensors.const_20")
-  /\ safe_is_version (fun _ _ _ => None) (VStr (s2p "1.3.9")) = Ok (s2p "1.4")
-  /\ safe_is_version (fun _ _ _ => None) (VInt 2) = Ok (s2p "2")
+  /\ safe_is_version (fun _ _ _ => None) (fun _ => false) (VStr (s2p "1.3.9")) = Ok (s2p "1.4")
+  /\ safe_is_version (fun _ _ _ => None) (fun _ => false) (VInt 2) = Ok (s2p "2")
   /\ dotted_numeric (py_str VNone) = false
-  /\ safe_is_version (fun _ _ _ => None) VNone = Ok (s2p "1.4").
+  /\ safe_is_version (fun _ _ _ => None) (fun _ => false) VNone = Ok (s2p "1.4").
 Proof. vm_compute. repeat split. Qed.
 
 Example C18_ex_fallback_premise :
@@ -153,15 +160,20 @@ Example C18_ex_fallback_premise :
   /\ eval_vtest (fun _ _ _ => Some true) is_version_test (s2p "abc") [] = Some true.
 Proof. vm_compute. split; reflexivity. Qed.
 
+Example C18_ex_container_word :
+  safe_is_version (fun _ _ _ => Some false) (fun s => pstr_eqb s (s2p "latest")) (VStr (s2p "latest")) = Ok (s2p "1.4")
+  /\ safe_is_version (fun _ _ _ => Some false) (fun _ => false) (VStr (s2p "v2.0")) = Ok (s2p "v2.0").
+Proof. vm_compute. split; reflexivity. Qed.
+
 Example C18_ex_readme_call :
-  exists h, construct_case (fun _ _ _ => None) SerialGw false [RepA; RepA; RepA; RepA; RepA; RepA; RepA] = Ok h
+  exists h, construct_case (fun _ _ _ => None) (fun _ => false) SerialGw false [RepA; RepA; RepA; RepA; RepA; RepA; RepA] = Ok h
     /\ look h (p ["tasks"; "transport"; "timeout"]%string) = Some (VFloat (s2p "2.5"))
     /\ look h (p ["tasks"; "persistence"; "persistence_file"]%string) = Some (VStr (s2p "a.json"))
     /\ look h (p ["const"]%string) = Some (VObj (s2p "mysensors.const_22")).
 Proof. exact readme_serial_call. Qed.
 
 Example C18_ex_undocumented_refused :
-  construct (fun _ _ _ => None) classes (s2p "MQTTGateway") [VObj (s2p "pub"); VObj (s2p "sub")]
+  construct (fun _ _ _ => None) (fun _ => false) classes (s2p "MQTTGateway") [VObj (s2p "pub"); VObj (s2p "sub")]
     [(s2p "timeout", VFloat (s2p "1.0"))] = Raise TypeError.
 Proof. exact undocumented_keyword_refused. Qed.
 
@@ -172,5 +184,5 @@ Print Assumptions C18_floor_rule.
 Print Assumptions C18_version_floor.
 Print Assumptions C18_node_same_rule.
 Print Assumptions C18_nonnumeric_fallback.
-Print Assumptions C18_nonnumeric_fallback_refuted.
+Print Assumptions C18_nonnumeric_fallback_unfixed_refuted.
 Print Assumptions C18_generated_matches_spec.
